@@ -97,7 +97,7 @@ def shards(tier):
         out.append({"name": "hyp-malformed:%d" % i, "kind": "hyp", "malformed": True, "examples": 70 if q else 800})
     for i in range(2):
         out.append({"name": "hyp-cli:%d" % i, "kind": "hyp", "cli": True, "examples": 40 if q else 400})
-    out.append({"name": "hyp-njobs", "kind": "hyp", "n_jobs": (2, 4, 16), "examples": 25 if q else 200, "procs": 4})
+    out.append({"name": "hyp-njobs", "kind": "hyp", "n_jobs": (2, 3, 4, 16), "examples": 25 if q else 200, "procs": 4, "min_rx": 4, "max_rx": 12})
     if not q:
         for i in range(4):
             out.append({"name": "corpus:%d" % i, "kind": "corpus", "part": i, "of": 4, "batch_size": 7, "weight": 10 ** 6})
